@@ -394,8 +394,8 @@ CLAIMED = {
             'own branch is followed through ctx.convert into every mpf class the conversion can produce).  mag is '
             'evaluated symbolically: exp+bc+c with c in {0,1} for a normal mpf, max(..)+1 exactly for a complex number '
             'with two non-zero parts, -inf / +inf for zero / infinities.  ldexp and frexp are exact field rewrites '
-            '(exponent + n; exponent -bc with e = exp+bc).  nint_distance is NOT decided (bit manipulation of the '
-            'mantissa); fp and iv contexts and Python floats (C09) are outside the clause.',
+            '(exponent + n; exponent -bc with e = exp+bc).  The rational and mpf branches of nint_distance are closed-form '
+            'integer arithmetic and are evaluated from the source on a grid (N-R6: grid evaluation, not a proof); fp and iv contexts and Python floats (C09) are outside the clause.',
             'Assumes canonical raw values (C01) and reduced rationals; trusts the interpreter in sa/classdom.py.',
             'DESIGN.md section 10 (C39)'),
     'C08': ('W-printing',
